@@ -3,8 +3,11 @@ package stack
 import (
 	"context"
 	"fmt"
+	"runtime"
+	"strings"
 	"sync"
 	"time"
+	"verif/harness/internal/ev"
 
 	"go.brendoncarroll.net/p2p"
 )
@@ -158,37 +161,27 @@ func (s *Script) ServeAsk(ctx context.Context, fn func(context.Context, []byte, 
 // within the timeout (no Receive pending) .
 func (s *Script) Inject(src Addr, payload []byte, timeout time.Duration) (panicText string, handled bool) {
 	inj := injected{msg: Msg{Src: src, Dst: s.Local, Payload: append([]byte{}, payload...)}, done: make(chan string, 1)}
-	select {
-	case s.in <- inj:
-	case <-time.After(timeout):
-		return "", false
-	case <-s.closed:
+	if !offer(s, s.in, inj, timeout) {
 		return "", false
 	}
-	select {
-	case p := <-inj.done:
+	// A callback that hangs never returns; one that is merely slow on a busy machine does. The limit for
+	// "did not return" is therefore patient (ev.Patient): `timeout` on a responsive machine, longer otherwise.
+	if p, ok := ev.PatientRecv(timeout, inj.done); ok {
 		return p, true
-	case <-time.After(timeout):
-		return "callback did not return within " + timeout.String(), true
 	}
+	return "callback did not return within " + timeout.String() + LibraryStacks(), true
 }
 
 // InjectAsk hands payload to the layer above as an ask from src.
 func (s *Script) InjectAsk(src Addr, payload []byte, timeout time.Duration) (n int, resp []byte, panicText string, handled bool) {
 	inj := injectedAsk{msg: Msg{Src: src, Dst: s.Local, Payload: append([]byte{}, payload...)}, done: make(chan askResult, 1)}
-	select {
-	case s.asks <- inj:
-	case <-time.After(timeout):
-		return 0, nil, "", false
-	case <-s.closed:
+	if !offer(s, s.asks, inj, timeout) {
 		return 0, nil, "", false
 	}
-	select {
-	case r := <-inj.done:
+	if r, ok := ev.PatientRecv(timeout, inj.done); ok {
 		return r.n, r.resp, r.panic, true
-	case <-time.After(timeout):
-		return 0, nil, "handler did not return within " + timeout.String(), true
 	}
+	return 0, nil, "handler did not return within " + timeout.String() + LibraryStacks(), true
 }
 
 func (s *Script) LocalAddrs() []Addr { return []Addr{s.Local} }
@@ -212,4 +205,50 @@ type TellOnly struct{ Swarm }
 func (s *Script) PublicKey() PubKey { return PubKey{} }
 func (s *Script) LookupPublicKey(context.Context, Addr) (PubKey, error) {
 	return PubKey{}, p2p.ErrPublicKeyNotFound
+}
+
+// LibraryStacks returns the stacks of all goroutines that are inside the library, for hang diagnosis.
+func LibraryStacks() string {
+	buf := make([]byte, 1<<20)
+	buf = buf[:runtime.Stack(buf, true)]
+	var out []string
+	for _, g := range strings.Split(string(buf), "\n\n") {
+		if strings.Contains(g, "go.brendoncarroll.net/p2p/") {
+			lines := strings.Split(g, "\n")
+			var keep []string
+			for _, l := range lines {
+				if !strings.HasPrefix(l, "\t") {
+					keep = append(keep, l)
+				}
+			}
+			if len(keep) > 8 {
+				keep = keep[:8]
+			}
+			out = append(out, strings.Join(keep, " < "))
+		}
+	}
+	if len(out) > 12 {
+		out = out[:12]
+	}
+	return "\ngoroutines inside the library:\n  " + strings.Join(out, "\n  ")
+}
+
+// offer hands v to a pending Receive / ServeAsk. It gives up when the transport is closed or after
+// timeout - later if the machine stalled meanwhile (see ev.Patient).
+func offer[T any](s *Script, ch chan T, v T, timeout time.Duration) bool {
+	start := time.Now()
+	wait := timeout
+	for {
+		select {
+		case ch <- v:
+			return true
+		case <-s.closed:
+			return false
+		case <-time.After(wait):
+		}
+		if !ev.Stalled(start) || time.Since(start) > ev.Extended(timeout) {
+			return false
+		}
+		wait = timeout / 4
+	}
 }
